@@ -353,6 +353,32 @@ impl TransportFn<()> for DriverRun {
                         let mut out = [0u8; 16];
                         let _ = i.query_config_select(virtio_drivers::device::input::InputConfigSelect::IdName, 0, &mut out);
                         let _ = i.name();
+                        match choose(6) {
+                            0 => {
+                                let _ = i.serial_number();
+                            }
+                            1 => {
+                                let _ = i.ids();
+                            }
+                            2 => {
+                                let _ = i.prop_bits();
+                            }
+                            3 => {
+                                let _ = i.ev_bits(choose(256) as u8);
+                            }
+                            4 => {
+                                let _ = i.abs_info(choose(256) as u8);
+                            }
+                            _ => {
+                                // a caller buffer larger than the 128-byte data field
+                                let mut big = [0u8; 300];
+                                let r = i.query_config_select(virtio_drivers::device::input::InputConfigSelect::EvBits, choose(256) as u8, &mut big);
+                                if let Ok(n) = r {
+                                    let _ = &big[..usize::from(n).min(big.len())];
+                                }
+                            }
+                        }
+                        let _ = i.ack_interrupt();
                         None
                     }
                     AnyDriver::Sound(s) => {
